@@ -27,6 +27,7 @@ type twCfg struct {
 	MaxL   int    `json:"max_len"`
 	Eager  bool   `json:"eager_feed"`
 	Unit   string `json:"time_unit,omitempty"` // "" = ms; "ss": the ts column holds seconds; "ns": nanoseconds
+	LateMs int64  `json:"allowed_lateness_ms,omitempty"` // ALLOWEDLATENESS; only arrival sequences without a late-on-arrival row are run (late updates are C02's subject)
 	GapMs  int64  `json:"gap_ms,omitempty"`    // the second half of the stream (and the sentinel) lies this much later in event time
 	Block  bool   `json:"block_slow_consumer,omitempty"` // strategy block without timeout, window output buffer of 1, sink taking 20 ms per batch
 	// Base/Div/Float: timestamps of a present-day epoch (Base + (t-10000)/Div ms) handed over as float64, the type a
@@ -89,6 +90,9 @@ func twSQL(c twCfg) string {
 	with := "TIMESTAMP='ts', TIMEUNIT='" + unit + "'"
 	if c.OOOMs > 0 {
 		with += fmt.Sprintf(", MAXOUTOFORDERNESS='%dms'", c.OOOMs)
+	}
+	if c.LateMs > 0 {
+		with += fmt.Sprintf(", ALLOWEDLATENESS='%dms'", c.LateMs)
 	}
 	return fmt.Sprintf("SELECT %s FROM stream GROUP BY %s%s WITH (%s)", sel, grp, win, with)
 }
@@ -319,6 +323,10 @@ func twConfigs(kind, tier string) []twCfg {
 			out = append(out, twCfg{Kind: kind, SizeMs: 2000, OOOMs: 1000, Keys: 1, MaxL: maxL, Eager: eager, GapMs: 36 * 3600 * 1000})
 		}
 		out = append(out, twCfg{Kind: kind, SizeMs: 2000, OOOMs: 0, Keys: 1, MaxL: maxL, Eager: false, Block: true})
+		// ALLOWEDLATENESS shorter and longer than the window, on-time rows only: the first firing is what it is without it
+		for _, late := range []int64{200, 1000, 3000} {
+			out = append(out, twCfg{Kind: kind, SizeMs: 2000, OOOMs: 0, Keys: 1, MaxL: maxL, Eager: true, LateMs: late}, twCfg{Kind: kind, SizeMs: 2000, OOOMs: 1000, Keys: 1, MaxL: maxL, Eager: false, LateMs: late})
+		}
 		for _, base := range []int64{1700000000300, 1700000000000} {
 			for _, ooo := range []int64{0, 100} {
 				out = append(out, twCfg{Kind: kind, SizeMs: 100, OOOMs: ooo, Keys: 1, MaxL: maxL, Eager: true, Base: base, Div: 20, Float: true})
@@ -352,6 +360,9 @@ func twConfigs(kind, tier string) []twCfg {
 		out = append(out, twCfg{Kind: kind, SizeMs: 4000, Slide: 2000, OOOMs: 1000, Keys: 1, MaxL: maxL, Eager: eager, GapMs: 36 * 3600 * 1000})
 	}
 	out = append(out, twCfg{Kind: kind, SizeMs: 4000, Slide: 2000, OOOMs: 0, Keys: 1, MaxL: maxL, Eager: false, Block: true})
+	for _, late := range []int64{200, 3000} {
+		out = append(out, twCfg{Kind: kind, SizeMs: 4000, Slide: 2000, OOOMs: 0, Keys: 1, MaxL: maxL, Eager: true, LateMs: late}, twCfg{Kind: kind, SizeMs: 4000, Slide: 2000, OOOMs: 1000, Keys: 1, MaxL: maxL, Eager: false, LateMs: late})
+	}
 	for _, base := range []int64{1700000000300, 1700000000000} {
 		out = append(out, twCfg{Kind: kind, SizeMs: 200, Slide: 100, OOOMs: 100, Keys: 1, MaxL: maxL, Eager: true, Base: base, Div: 20, Float: true})
 	}
@@ -391,6 +402,15 @@ func twRunEnum(prop string, u fw.Unit, cfgs []twCfg) fw.Result {
 					continue
 				}
 				evs := twEvents(c, seq, kb<<1)
+				if c.LateMs > 0 {
+					late := false
+					for _, ok := range ref.Accepted(evs, c.OOOMs) {
+						late = late || !ok
+					}
+					if late {
+						continue // a late-on-arrival row may update a fired window: C02's subject
+					}
+				}
 				r := detExec(sql, twOpts(c), twFeed(c, evs))
 				a.r.Evaluations++
 				a.r.States++
